@@ -55,7 +55,7 @@ LEAN = {"module": "Pygom.Props.C14",
         + ["Pygom.C14.%s_diff_loss_weighted" % c for c in ("square", "normal", "poisson", "gamma", "negbinom")]
         + ["Pygom.C14.normal_loss_weighted", "Pygom.C14.raw_eq_unit_weight"]
         + ["Pygom.C14.session_is_pure", "Pygom.C14.earlier_results_kept", "Pygom.C14.repeat_reproduces", "Pygom.C14.objects_do_not_interact"]}
-BUDGET = {"quick": {"cases": 2500, "session": 800, "search": 5000, "search_session": 1500},
+BUDGET = {"quick": {"cases": 2500, "session": 2000, "search": 5000, "search_session": 1500},
           "thorough": {"cases": 150000, "session": 40000, "search": 40000, "search_session": 10000}}
 RULE = ("random loss objects: class in {Square, Normal, Poisson, Gamma, NegBinom}; n in 1..7 observations (integers, zero included, "
         "for the count losses; > 0 for Gamma); predictions > 0 given as vector (n,), single column (n,1) or single row (1,n); spread "
@@ -453,8 +453,7 @@ def _flat(c):
 
 
 def _spread_arg(sp, shape, N):
-    """(constructor argument or _NOARG, per-observation float values)"""
-    default = None
+    """(constructor argument, per-observation float values); (None, None) for the default spread"""
     k = sp["kind"]
     if k == "default":
         return None, None
